@@ -27,7 +27,7 @@ class C04(Prop):
             "1..80; LF/CRLF; final newline present/absent; descriptions; ACGT/lower/IUPAC/N-run residues) x "
             "buffer sizes {1,2,3,5,7,w-1,w,w+1,n-1,n,n+1,250000}; exhaustive tiny layouts (one record over {A,N} "
             "up to 5 (quick) / 7 (thorough) residues x width 1-4 x LF/CRLF x final newline); a separate malformed "
-            "stream (blank/ragged lines, no header, duplicate names, empty file, header only, mixed EOL). "
+            "stream, every kind in turn (blank/ragged lines, no header, duplicate names -- apart and directly adjacent --, empty file, header only, mixed EOL). "
             "seqbytes: every interval of records <=12 residues, random ones beyond, through the index the "
             "implementation itself produced; streamback: derived assembly streamed back. non-trivial = distinct case"
         )
@@ -59,8 +59,8 @@ class C04(Prop):
         for _ in range(160 if tier == "quick" else 2500):
             layout = F.gen_fasta(rng)
             yield from self.cases_for(rng, layout, "wf")
-        for _ in range(80 if tier == "quick" else 800):
-            kind, data = F.malformed(rng)
+        for k in range(88 if tier == "quick" else 880):
+            kind, data = F.malformed(rng, F.MALFORMED_KINDS[k % len(F.MALFORMED_KINDS)])
             yield {"gen": "malformed/" + kind, "kind": "index", "layout": None, "data": data,
                    "buf": rng.choice([1, 2, 5, 250000])}
 
